@@ -33,6 +33,7 @@ func init() {
 		"verifIte":         vIte,
 		"verifYield":       stubYield,
 		"verifMaxAlloc":    vMaxAlloc,
+		"verifParam":       vParam,
 		"verifAnd":         func(it *Interp, fr *frame, fn *ssa.Function, a []Value, site ssa.Instruction) Value { return it.tt.BAnd(a[0].(*Term), a[1].(*Term)) },
 		"verifOr":          func(it *Interp, fr *frame, fn *ssa.Function, a []Value, site ssa.Instruction) Value { return it.tt.BOr(a[0].(*Term), a[1].(*Term)) },
 		"verifImplies":     func(it *Interp, fr *frame, fn *ssa.Function, a []Value, site ssa.Instruction) Value { return it.tt.BOr(it.tt.BNot(a[0].(*Term)), a[1].(*Term)) },
@@ -283,4 +284,14 @@ func vIte(it *Interp, fr *frame, fn *ssa.Function, args []Value, site ssa.Instru
 // verifMaxAlloc() int: number of symbolic-size allocations so far on this path
 func vMaxAlloc(it *Interp, fr *frame, fn *ssa.Function, args []Value, site ssa.Instruction) Value {
 	return it.tt.Const(64, uint64(len(it.allocs)))
+}
+
+// verifParam(name) int: per-instance concrete parameter (unit@name=value)
+func vParam(it *Interp, fr *frame, fn *ssa.Function, args []Value, site ssa.Instruction) Value {
+	name := concStr(it, args[0])
+	v, ok := it.params[name]
+	if !ok {
+		it.unsupported("verifParam(%s): no value supplied", name)
+	}
+	return it.tt.Const(64, uint64(int64(v)))
 }
